@@ -39,5 +39,7 @@ func init() {
 			Old: "\t\tif tcpAddr.IP.String() == \"127.0.0.1\" || tcpAddr.IP.String() == \"::1\" {", New: "\t\tremote := tcpAddr.IP.String()\n\t\tif remote == \"127.0.0.1\" || remote == \"::1\" {"},
 		{Name: "binding targets memoised by key only (seed C20-r2b)", Kill: true, Rule: "C20-TARGET", File: "api/util.go",
 			Old: "func getBindingTarget(pub []byte, proofType poc.ProofType, bitLength int) (string, error) {\n", New: "var bindingTargets = map[string]string{}\n\nfunc getBindingTarget(pub []byte, proofType poc.ProofType, bitLength int) (string, error) {\n\tif encoded, ok := bindingTargets[string(pub)]; ok {\n\t\treturn encoded, nil\n\t}\n"},
+		{Name: "binding target encoded into a local before returning", Kill: false, File: "api/util.go",
+			Old: "\treturn target.EncodeAddress(), nil\n}", New: "\tencoded := target.EncodeAddress()\n\treturn encoded, nil\n}"},
 	}
 }
